@@ -102,7 +102,7 @@ def check_bodies(tier, k, n, res):
 
 # every spelling a comment can take, for the 'kinds' family (the 'hdr' family keeps four of them short so that
 # sequences of 4-5 items stay enumerable)
-COMMENT_KINDS = [b'-- c', b'// c', b'--[[c]]', b'--[[c\nd]]', b'--[=[c]=]', b'--[==[c\nd]==]', b'--[=[a]]b]=]',
+COMMENT_KINDS = [b'-- c', b'// c', b'--[[c]]', b'--[[c\nd]]', b'--[[c\n\n  d]]', b'--[=[c\n \n\nd]=]', b'--[=[c]=]', b'--[==[c\nd]==]', b'--[=[a]]b]=]',
                  b'--[==[a]=]b\n]]c]==]', b'-- c \t', b'--c]]', b'//c--d', b'--', b'//', b'--[', b'--[=', b'--\x80\xff']
 KIND_SEPS = [b'\n', b' ', b'\r\n', b'']
 
@@ -143,6 +143,19 @@ def check_src(src, case, shape, follower, res):
     except Exception as e:
         res.violation('C19|raise|%s' % type(e).__name__, 'luamin(%r) raised %r' % (src, e), case)
         return
+    # the same source fed one line per chunk (the .p8 path) gives the same output
+    if b'\n' in src[:-1]:
+        parts = src.split(b'\n')
+        chunks = [p_ + b'\n' for p_ in parts[:-1]] + ([parts[-1]] if parts[-1] else [])
+        try:
+            _, out_chunked = c01.minify(src, 'default', None, chunks=chunks)
+        except Exception as e:
+            res.violation('C19|chunked-raise|%s' % type(e).__name__, 'luamin(%r) fed per line raised %r' % (src, e), case)
+            return
+        if out_chunked != out:
+            res.violation('C19|chunked-differs', 'luamin(%r) = %r as one chunk but %r when the source arrives one line per chunk' % (
+                src, out, out_chunked), case)
+            return
     # leading comments of the input
     lead = []
     for t in intoks:
